@@ -271,6 +271,30 @@ static void one_case(int iface, int transport, int version, int src_tail, int nc
 			else {
 				KSI_AsyncHandle_getState(out, &state);
 				KSI_AsyncHandle_getError(out, &err);
+				{
+					/* what the handle itself reports: a response object exactly when answered (bearing the request's id and status 0); for
+					 */
+					KSI_ExtendResp *er = NULL;
+					long ee = 0;
+					KSI_Utf8String *em = NULL;
+					int gr = KSI_AsyncHandle_getExtendResp(out, &er);
+					if (state == KSI_ASYNC_STATE_RESPONSE_RECEIVED) {
+						KSI_Integer *ri = NULL, *st = NULL;
+						if (gr != KSI_OK || er == NULL) vf_fail("answered-without-response-object", "%s: the request is handed back as answered but KSI_AsyncHandle_getExtendResp gives 0x%x / %s", what, gr, er ? "object" : "NULL");
+						else {
+							KSI_ExtendResp_getRequestId(er, &ri); KSI_ExtendResp_getStatus(er, &st);
+							if (iface == 2 && S.last_parsed && (ri == NULL || KSI_Integer_getUInt64(ri) != S.last.req_id)) vf_fail("response-object-mismatch", "%s: the response object on the handle bears id %llx, the request went out as %llx", what, ri ? (unsigned long long)KSI_Integer_getUInt64(ri) : 0ULL, (unsigned long long)S.last.req_id);
+							if (st != NULL && KSI_Integer_getUInt64(st) != 0) vf_fail("response-object-mismatch", "%s: answered request whose response object has status %llu", what, (unsigned long long)KSI_Integer_getUInt64(st));
+						}
+					} else if (state == KSI_ASYNC_STATE_ERROR) {
+						if (er != NULL) vf_fail("error-with-response", "%s: the request is handed back as failed (0x%x) but its handle carries a response object", what, err);
+						/* status code and message as the handle reports them (not judged: an extender refusal reaches the handle through the
+						 * response check, which keeps the error class but not the details) */
+						KSI_AsyncHandle_getExtError(out, &ee);
+						KSI_AsyncHandle_getErrorMessage(out, &em);
+						if (reply == R_STATUS) vf_outcome("async:status-details:%s", ((uint64_t)ee == STATUSES[sub % NSTATUS] && em != NULL) ? "reported" : "not-reported");
+					}
+				}
 				if (state == KSI_ASYNC_STATE_RESPONSE_RECEIVED) res = KSI_AsyncHandle_getSignature(out, &ext);
 				else res = err ? err : KSI_UNKNOWN_ERROR;
 				KSI_AsyncHandle_free(out);
